@@ -653,32 +653,35 @@ add_representer(type(None), _none_representer)
 
 
 def _get_metadata_end(data, beg):
-    _beg = beg+2
+    # the literal starts at data[beg] with '{{' and ends where its braces are balanced again - not at the first '}}':
+    # a nested display can end right before the closing braces ("{{'a': {'b': 1}}}") and a string can contain '}}'
+    offsets = []
+    pos = beg
     def _readline():
-        nonlocal _beg
-        end = data.find('}}', _beg)
-        if end == -1:
-            end = len(data)
-        else:
-            end += 2
-
-        ret = data[_beg:end]
-        _beg = end
+        nonlocal pos
+        end = data.find('\n', pos)
+        end = len(data) if end == -1 else end + 1
+        offsets.append(pos)
+        ret = data[pos:end]
+        pos = end
         return ret.encode('utf8')
-         
-    last_close = False
-    end = None
-    for tok in tokenize.tokenize(_readline):
-        if tok.type == token.OP and tok.string == '}':
-            if last_close:
-                end = _beg
-                break
-            else:
-                last_close = True
-        else:
-            last_close = False
 
-    return end
+    depth = 0
+    try:
+        for tok in tokenize.tokenize(_readline):
+            if tok.type != token.OP:
+                continue
+            if tok.string in ('{', '[', '('):
+                depth += 1
+            elif tok.string in ('}', ']', ')'):
+                depth -= 1
+                if depth == 0:
+                    row, col = tok.end
+                    return offsets[row-1] + col
+    except (tokenize.TokenError, SyntaxError):
+        pass
+
+    return None
 
 
 def _get_metadata_content(data):
